@@ -365,5 +365,46 @@ func c11Scenarios(tier string) []*Scenario {
 		x.Vals["out"] = fmt.Sprint(snapshotSig(snaps[0]) == snapshotSig(snaps[2]), snapshotSig(snaps[1]) == snapshotSig(snaps[2]))
 	}
 	sc.Check = func(x *Run, o *rt.Outcome) (string, string, string) { return "", "", fmt.Sprint(x.Vals["out"]) }
-	return []*Scenario{sc}
+	// Q2: two goroutines use the same metric of a test scope for the first time; a snapshot
+	// taken concurrently and the final snapshot must account for everything recorded
+	sc2 := &Scenario{Property: "C11", Name: "Q2-concurrent-first-use-on-test-scope"}
+	sc2.Body = func(x *Run) {
+		root := tally.VerifNewTestScopeOpts(tally.ScopeOptions{Prefix: "p"}, 1)
+		s := root.SubScope("s")
+		var ths []*rt.Thread
+		for i := 0; i < 2; i++ {
+			i := i
+			ths = append(ths, rt.GoNamed(fmt.Sprintf("user%d", i), func() {
+				s.Timer("t").Record(time.Duration(i + 1))
+				s.Counter("c").Inc(int64(i + 1))
+				s.Histogram("h", tally.ValueBuckets{1}).RecordValue(float64(i))
+			}))
+		}
+		sn := rt.GoNamed("snap", func() { _ = root.Snapshot() })
+		for _, t := range ths {
+			t.Join()
+		}
+		sn.Join()
+		snap := root.Snapshot()
+		tv := snap.Timers()["p.s.t+"]
+		if tv == nil || len(tv.Values()) != 2 {
+			x.failf("recorded-timer-values-missing-from-snapshot", "2 durations recorded on timer p.s.t by two goroutines, snapshot shows %v", tv)
+			return
+		}
+		if c := snap.Counters()["p.s.c+"]; c == nil || c.Value() != 3 {
+			x.failf("recorded-increments-missing-from-snapshot", "counter p.s.c: %v", c)
+			return
+		}
+		var tot int64
+		if h := snap.Histograms()["p.s.h+"]; h != nil {
+			for _, n := range h.Values() {
+				tot += n
+			}
+		}
+		if tot != 2 {
+			x.failf("recorded-samples-missing-from-snapshot", "histogram p.s.h holds %d of 2 samples", tot)
+		}
+	}
+	sc2.Check = func(x *Run, o *rt.Outcome) (string, string, string) { return "", "", "ok" }
+	return []*Scenario{sc, sc2}
 }
